@@ -71,6 +71,14 @@ def uf_str(name, arg):
     raise RuntimeError('uninterpreted functions exist in symbolic runs only (guard with symbolic_run())')
 
 
+def uf_bool(name, *args):
+    raise RuntimeError('uninterpreted functions exist in symbolic runs only (guard with symbolic_run())')
+
+
+def uf_enum(name, cls, arg):
+    raise RuntimeError('uninterpreted functions exist in symbolic runs only (guard with symbolic_run())')
+
+
 def opaque(tag, *deps):
     raise RuntimeError('opaque values exist in symbolic runs only')
 
